@@ -8,6 +8,7 @@ ENGINES = [
     {"name": "p2p driver", "path": "drivers/p2p_driver.cpp", "serves_properties": ["C20"], "kind_free_text": "count lattice x layouts vs long double"},
     {"name": "memory driver", "path": "drivers/mem_driver.cpp", "serves_properties": ["C14"], "kind_free_text": "history BFS on TbfMemoryBlock + view trees over byte copies"},
     {"name": "tsm/periodic driver", "path": "drivers/tsmper_driver.cpp", "serves_properties": ["C09", "C10"], "kind_free_text": "enumeration of source/target patterns and periodic configurations with the exact kernel"},
+    {"name": "configuration units", "path": "drivers/config_tu.cpp, config_selecter.cpp, config_norhs.cpp, config_hilbert_only.cpp", "serves_properties": ["C19"], "kind_free_text": "one translation unit per documented configuration"},
     {"name": "E6 runner", "path": "tools/check.py", "serves_properties": [], "kind_free_text": "builds drivers from /repo, runs slices on all cores, merges, applies known_findings.json, writes evidence and replays"},
 ]
 NOTES = "See DESIGN.md. All checks rebuild their drivers from /repo/src on every run; scratch output only under /verif/build."
@@ -60,5 +61,8 @@ CLAIMED["C09"] = {"engine": "tsm/periodic driver + E3 schedule explorer", "text"
 CLAIMED["C18"] = {"engine": "tree driver + E3 schedule explorer", "text": "Counter-wrapped exact kernel on the enumerated trees (sequential) and on every explored schedule and worker assignment of the OpenMP executor; merged counters compared with the reference counts implied by the tree, results compared with the unwrapped kernel.", "design_ref": "DESIGN.md section 5 C18",
     "note": "as C01 and C03; P2PTsm of the counter (target/source) is outside the property's stated executors", "technique": "bounded-exhaustive enumeration + stateless model checking of schedules and worker assignments under the mock task runtime"}
 
+CLAIMED["C19"] = {"engine": "configuration units", "text": "The finite cross product of documented template configurations is enumerated as translation units; a unit that fails to compile is a violation, a unit that compiles runs the C01/C06/C13 oracles on a small fixed space.", "design_ref": "DESIGN.md section 5 C19",
+    "note": "trusted: g++ 12 as the only front end; Specx/StarPU through mock headers", "technique": "exhaustive enumeration of a finite configuration lattice (one translation unit per configuration) + bounded-exhaustive oracle runs"}
+
 _pending = "check not built yet in this round (planned, see DESIGN.md section 11); not claimed until it runs end to end"
-NOT_APPLICABLE = {p: _pending for p in ["C04", "C05", "C15", "C19"]}
+NOT_APPLICABLE = {p: _pending for p in ["C04", "C05", "C15"]}
